@@ -30,6 +30,33 @@ def allowed (H : Hier) (m : Mod) (caller : Option Name) (decl : Name) : Prop :=
   | .priv => caller = some decl
   | .prot => ∃ c, caller = some c ∧ Related H c decl
 
+/-! A decision procedure for `allowed` (proved correct in `Proofs/Lemmas/Access.lean: allowedB_spec`); the
+driver answers `spec` requests with it so that the harness can hold its own Go oracle against this file. -/
+
+def subB (H : Hier) (a b : Name) : Option Bool :=
+  if a = b then some true
+  else
+    match Model.Access.chainHas H b (Model.Access.fuel H) (extOf H a) with
+    | .yes => some true
+    | .fuel => none
+    | .no => some false
+    | .missing => some false
+
+def relatedB (H : Hier) (a b : Name) : Option Bool :=
+  match subB H a b with
+  | none => none
+  | some true => some true
+  | some false => subB H b a
+
+def allowedB (H : Hier) (m : Mod) (caller : Option Name) (decl : Name) : Option Bool :=
+  match m with
+  | .pub => some true
+  | .priv => some (caller == some decl)
+  | .prot =>
+    match caller with
+    | none => some false
+    | some c => relatedB H c decl
+
 end Spec.Access
 
 namespace Spec.Types
